@@ -42,9 +42,63 @@ def _lang_tables(ctx, rule):
     return out
 
 
-def table_rules(ctx, rule_a, rule_b, rule_c, rule_d, rule_g, rule_m="same-as-d"):
+_CASE_PRE = None
+
+
+def _case_preimages():
+    """ch -> single characters c != ch with c.lower() == ch or c.upper() == ch (Unicode simple + full mappings of one char)"""
+    global _CASE_PRE
+    if _CASE_PRE is None:
+        d = {}
+        for cp in range(0x30000):
+            if 0xD800 <= cp <= 0xDFFF:
+                continue
+            c = chr(cp)
+            for m in (c.lower(), c.upper()):
+                if len(m) == 1 and m != c:
+                    d.setdefault(m, [])
+                    if c not in d[m]:
+                        d[m].append(c)
+        _CASE_PRE = d
+    return _CASE_PRE
+
+
+def lang_new_empty(ctx, rule):
+    """Lang::new starts with empty tables: everything a language folds, composes or classifies comes from the `add_*` calls of
+    its constructor, which the table rules read.  A table pre-loaded by the constructor default escapes those rules."""
+    fb = None
+    for b in ctx.facts.fns():
+        if b.cn.endswith("Lang::new"):
+            fb = b
+    if not ctx.require(rule, "Lang::new", fb):
+        return
+    e = S.strip_refs(ctx.sym(fb).local(0))
+    key = "lang-new-empty"
+    if e[0] != "agg":
+        ctx.fail(rule, key, fb.where(), "Lang::new no longer builds the language as one struct literal (fail closed)")
+        return
+    bad = []
+    n = 0
+    for name, v in zip(e[4], e[3]):
+        if not str(name).endswith("_map"):
+            continue
+        n += 1
+        v = S.strip_refs(v)
+        if not (v[0] == "call" and v[1].endswith(("Default::default", "HashMap::new", "HashMap::with_capacity", "HashMap::with_hasher",
+                                                  "HashMap::with_capacity_and_hasher"))):
+            bad.append((name, v))
+    if bad or n < 4:
+        ctx.fail(rule, key, fb.where(), "Lang::new pre-loads `%s` (%s): entries that no table rule sees" %
+                 (bad[0][0] if bad else "?", S.show(bad[0][1], fb)[:80] if bad else "fewer than four table fields found"),
+                 {"witness": "every language folds characters its tables do not list (e.g. letter apostrophes to ')"})
+    else:
+        ctx.ok(rule, key, fb.where(), "Lang::new starts with %d empty tables" % n, nontrivial=True)
+
+
+def table_rules(ctx, rule_a, rule_b, rule_c, rule_d, rule_g, rule_m="same-as-d", rule_w=None):
     if rule_m == "same-as-d":
         rule_m = rule_d
+    lang_new_empty(ctx, rule_d or rule_m or rule_a)
     langs = _lang_tables(ctx, rule_a)
     real = [(lc, d) for lc, d in langs if d["compose"] or d["reduce"]]
     ctx.floor(rule_a, "languages_with_tables", len(real), 5)
@@ -82,11 +136,14 @@ def table_rules(ctx, rule_a, rule_b, rule_c, rule_d, rule_g, rule_m="same-as-d")
                              "%s: reducible letter %r has no composition entry for its decomposed form %r: a query typed "
                              "in decomposed form is never folded" % (lname, frm, nfd),
                              {"table": tbl, "witness": "decomposed spelling of a word with %r finds nothing" % frm})
-            # R11.c case closure
+            # R11.c case closure — including characters that only map TO this key (ẞ lower-cases to ß, but ß upper-cases to SS)
             if len(frm) == 1:
-                other = frm.upper() if frm.islower() else frm.lower()
-                if other != frm and len(other) == 1:
-                    key = "case-closure:%s:%s" % (lname, k)
+                other0 = frm.upper() if frm.islower() else frm.lower()
+                others = ([other0] if other0 != frm and len(other0) == 1 else []) + \
+                    [c_ for c_ in _case_preimages().get(frm, []) if c_ != other0]
+                for other in others:
+                    key = "case-closure:%s:%s" % (lname, k) if other == other0 else \
+                        "case-closure:%s:%s:U+%04X" % (lname, k, ord(other))
                     if other in red and red[other].lower() == to.lower():
                         ctx.ok(rule_c, key, lc.body.where(), "%s: %r and its other-case form %r reduce to the same letters" % (lname, frm, other))
                     else:
@@ -106,6 +163,15 @@ def table_rules(ctx, rule_a, rule_b, rule_c, rule_d, rule_g, rule_m="same-as-d")
                          {"table": tbl, "witness": "Spanish store, query '&': treated as the word 'y' instead of an empty query"})
             else:
                 ctx.ok(rule_m, key, lc.body.where(), "%s: %r -> %r are letters / marks" % (lname, frm, to))
+            # growth: one original character folds to at most two (C05 states highlights up to "the end of an original character
+            # that folds to two"); a reduction that adds two or more characters stretches spans beyond what was typed
+            if rule_w is not None:
+                key = "growth:%s:%s" % (lname, k)
+                if len(to) - len(frm) <= 1:
+                    ctx.ok(rule_w, key, lc.body.where(), "%s: %r -> %r grows by at most one character" % (lname, frm, to))
+                else:
+                    ctx.fail(rule_w, key, lc.body.where(), "%s: reduction %r -> %r grows by %d characters" % (lname, frm, to, len(to) - len(frm)),
+                             {"table": tbl, "witness": "query 'of' on the title 'o\ufb03ce' highlights four normalised characters for two typed"})
             # R11.d fixpoint
             key = "fixpoint:%s:%s" % (lname, k)
             again = [c for c in to if c in red]
